@@ -63,6 +63,14 @@ func (l *Lexer) rest() string {
 	return l.input[l.pos:]
 }
 
+// dropCarriageReturns moves the end of the pending token back over trailing carriage returns,
+// a command never ends in one: written back out it would read as part of a CRLF line end.
+func (l *Lexer) dropCarriageReturns() {
+	for l.pos > l.start && l.input[l.pos-1] == '\r' {
+		l.pos--
+	}
+}
+
 // all returns the string from the lexer start position to it's current position.
 func (l *Lexer) all() string {
 	if l.start >= len(l.input) || l.pos > len(l.input) {
@@ -395,6 +403,8 @@ func lexTaskCommands(l *Lexer) lexFn {
 		case r == '\n':
 			// If there's a newline, might be more commands on the next line
 			l.backup()
+			// With CRLF line ends the carriage return belongs to the line end, not to the command
+			l.dropCarriageReturns()
 			l.emit(token.COMMAND)
 			l.skipWhitespace()
 		case strings.HasPrefix(l.rest(), token.LINTERP.String()):
@@ -411,6 +421,7 @@ func lexTaskCommands(l *Lexer) lexFn {
 			if strings.HasSuffix(l.all(), " ") {
 				l.pos--
 			}
+			l.dropCarriageReturns()
 			if len(l.all()) != 0 {
 				// If we actually have a command and not just an empty token
 				l.emit(token.COMMAND)
